@@ -226,7 +226,7 @@ def main(tier, seed, replay=None, scale=1.0):
                 imgs = sorted(set(imgs[:6] + allimgs[:max(2, int(8 * scale))]))
             # always: > 32768 contiguous blocks; xattr blocks holding empty values (both kept out of
             # the corruption universes)
-            imgs = sorted(set(list(imgs) + ["ext4_bigextent", "ext4_i128_emptyxattr"]))
+            imgs = sorted(set(list(imgs) + ["ext4_bigextent", "ext4_i128_emptyxattr", "ext4_casefold_mixed"]))
             for n in imgs:
                 for m in MODES:
                     items.append(("a", w.dir, names, e2fsck, env, (n, m)))
